@@ -39,6 +39,10 @@ Definition finish_str (b : bytes) : M bytes :=
 
 (* ---- symbols ---- *)
 
+(* is_truncated_symbol: at the end of input, a lone `.` or a cut multi-byte
+   character may still become a symbol *)
+Definition is_truncated_symbol (b : bytes) : bool := beq_bytes b [46] || utf8_truncated b.
+
 (* IoRead::parse_symbol_bytes: peek / discard one byte at a time *)
 Fixpoint scan_symbol_io (fuel : nat) (scratch : bytes) : M bytes :=
   match fuel with
@@ -50,7 +54,9 @@ Fixpoint scan_symbol_io (fuel : nat) (scratch : bytes) : M bytes :=
           if is_symbol_terminator ch then
             (if beq_bytes scratch [46] then error InvalidSymbol else ret scratch)
           else eat_char ;;; scan_symbol_io f (scratch ++ [ch])
-      | None => if beq_bytes scratch [46] then error InvalidSymbol else ret scratch
+      | None =>
+          if is_truncated_symbol scratch then error EofWhileParsingValue
+          else if beq_bytes scratch [46] then error InvalidSymbol else ret scratch
       end
   end.
 
@@ -71,7 +77,9 @@ Definition scan_symbol_slice (scratch : bytes) : M bytes :=
     let '(scanned, rest) := span_symbol (rinput s) [] in
     let s' := advance_over s scanned rest in
     let whole := scratch ++ scanned in
-    if beq_bytes whole [46] then error InvalidSymbol s' else ret whole s'.
+    let at_eof := match rest with [] => true | _ => false end in
+    if at_eof && is_truncated_symbol whole then error EofWhileParsingValue s'
+    else if beq_bytes whole [46] then error InvalidSymbol s' else ret whole s'.
 
 (* Read::parse_symbol *)
 Definition parse_symbol_rd (fuel : nat) (scratch : bytes) : M bytes :=
